@@ -20,6 +20,7 @@ import (
 	"github.com/nuetzliches/hookaido/internal/config"
 	"github.com/nuetzliches/hookaido/internal/httpheader"
 	"github.com/nuetzliches/hookaido/internal/queue"
+	"github.com/nuetzliches/hookaido/internal/verifhook"
 )
 
 const (
@@ -2230,6 +2231,7 @@ func (s *Server) handleMessagesPublish(w http.ResponseWriter, r *http.Request) {
 		return
 	}
 
+	verifhook.Point("admin.publish.before_enqueue")
 	published := 0
 	auditRoute := ""
 	auditTarget := ""
@@ -2299,6 +2301,7 @@ func (s *Server) handleMessagesPublish(w http.ResponseWriter, r *http.Request) {
 		auditTarget = ""
 	}
 
+	verifhook.Point("admin.publish.before_ack")
 	w.Header().Set("Content-Type", "application/json")
 	_ = json.NewEncoder(w).Encode(messagesPublishResponse{
 		Published: published,
@@ -3423,6 +3426,7 @@ func (s *Server) handleApplicationEndpointPublish(w http.ResponseWriter, r *http
 		return
 	}
 
+	verifhook.Point("admin.publish.before_enqueue")
 	published := 0
 	auditTarget := ""
 	singleTarget := true
@@ -3476,6 +3480,7 @@ func (s *Server) handleApplicationEndpointPublish(w http.ResponseWriter, r *http
 		auditTarget = ""
 	}
 
+	verifhook.Point("admin.publish.before_ack")
 	w.Header().Set("Content-Type", "application/json")
 	_ = json.NewEncoder(w).Encode(messagesPublishResponse{
 		Published: published,
